@@ -487,3 +487,29 @@ def site_name(ctx, t):
     if t["clos"] and short in ("with_connection",):
         return "with_connection:" + closure_desc(ctx, t["clos"][0])
     return short
+
+
+def resolve_const_str(b, o):
+    """string literal an operand holds, following single-definition temporaries"""
+    v = const_str(o)
+    if v is not None:
+        return v
+    import prov
+    l = op_local(o)
+    for _ in range(4):
+        if l is None:
+            return None
+        ds = prov.build_defs(b).get(l, ())
+        if len(ds) != 1 or ds[0][0] != "stmt":
+            return None
+        r = ds[0][2]["r"]
+        if r["k"] in ("use", "cast"):
+            v = const_str(r["o"])
+            if v is not None:
+                return v
+            l = op_local(r["o"])
+        elif r["k"] == "ref":
+            l = r["p"]["l"]
+        else:
+            return None
+    return None
